@@ -15,6 +15,7 @@ def main():
     translate_t1()
     run_translator("t4", [os.path.join(REPO, "main", "bebopc-go", "main.go"), os.path.join(REPO, "main", "bebopfmt", "main.go")], "gen/CliSteps.v", "T4(main/*/main.go)")
     run_translator("t2", [os.path.join(REPO, "primitive.go"), os.path.join(REPO, "gen_templates.go")], "gen/Tables.v", "T2(primitive.go, gen_templates.go)")
+    run_translator("t5", [os.path.join(REPO, "gen.go")], "gen/GenAppends.v", "T5(gen.go: File.Generate)")
     coq_makefile()
     rc, so, se = sh(["make", "-j16"], cwd=COQ, timeout=3000)
     open(os.path.join(LOGS, "setup-coq.log"), "w").write(so + se)
@@ -47,7 +48,7 @@ def main():
         print("setup: fexec does not build: %s" % e)
     import c12, c18, c19
     for f in (lambda: c18.sys_model(), lambda: c18.gexec_bin(), lambda: c18.gexec_bin(race=True), lambda: c12.tcheck_bin(),
-              lambda: c19.build_cli("bebopc-go"), lambda: c19.build_cli("bebopfmt"), lambda: ensure_tool("t4")):
+              lambda: c19.build_cli("bebopc-go"), lambda: c19.build_cli("bebopfmt"), lambda: ensure_tool("t4"), lambda: ensure_tool("t5")):
         try:
             f()
         except Exception as e:
